@@ -3,7 +3,7 @@ from pony.py23compat import int_types
 
 from operator import attrgetter
 from decimal import Decimal
-from datetime import date, datetime, timedelta
+from datetime import date, datetime, time, timedelta
 from binascii import hexlify
 
 from pony import options
@@ -78,6 +78,8 @@ class Value(object):
             return 'TIMESTAMP ' + self.quote_str(datetime2timestamp(value))
         if isinstance(value, date):
             return 'DATE ' + self.quote_str(str(value))
+        if isinstance(value, time):
+            return 'TIME ' + self.quote_str(value.isoformat())
         if isinstance(value, timedelta):
             return "INTERVAL '%s' HOUR TO SECOND" % timedelta2str(value)
         if isinstance(value, (int, float, Decimal)):
